@@ -107,7 +107,7 @@ func renderStyled(sb *strings.Builder, n *Node, st *RenderStyle, parentPrec int,
 	case "float":
 		sb.WriteString(n.S)
 	case "ref":
-		sb.WriteString(n.S)
+		sb.WriteString(SpellName(n.S))
 	case "paren":
 		sb.WriteString("(")
 		renderStyled(sb, n.A[0], st, 0, false)
